@@ -346,7 +346,7 @@ pub fn cases(seed: u64, tier: Tier) -> Cases {
         negotiate_case(&mut cs, "seeded", &encs, &lines);
     }
     // request side
-    let cts = [Some("application/json"), Some("application/x-jackson-smile"), Some("application/json; charset=utf-8"), Some("APPLICATION/JSON"), Some("application/json;q=0"), Some("text/x"), Some("text/plain"), Some("application/*"), Some("*/*"), Some("application/vnd.foo+json"), Some("application/vnd.foo"), Some("application/foo+json"), Some("garbage"), Some(""), Some("application/json, text/x"), None, Some("application/jsonx"), Some(" application/json")];
+    let cts = [Some("application/json+xml"), Some("application/x-jackson-smile+json"), Some("application/json+cbor; charset=utf-8"), Some("application/json+json"), Some("application/json"), Some("application/x-jackson-smile"), Some("application/json; charset=utf-8"), Some("APPLICATION/JSON"), Some("application/json;q=0"), Some("text/x"), Some("text/plain"), Some("application/*"), Some("*/*"), Some("application/vnd.foo+json"), Some("application/vnd.foo"), Some("application/foo+json"), Some("garbage"), Some(""), Some("application/json, text/x"), None, Some("application/jsonx"), Some(" application/json")];
     for ct in cts {
         for o in orders {
             request_case(&mut cs, o, ct);
@@ -359,4 +359,4 @@ pub fn cases(seed: u64, tier: Tier) -> Cases {
     cs
 }
 
-pub const RULE: &str = "15 fixed headers x 6 registration orders; absent Accept x 6 orders; every q-value 0..1000 in rotating spellings against its two neighbours and itself (3003 headers: pins the quality parser to the thousandth and the tie-break by position); seeded headers from a grammar (1-6 ranges from 15 range shapes incl. type/*, */*, */sub, suffixes, mixed case; 0-3 extra parameters; well-formed, boundary and 13 malformed q spellings; unparsable entries; 1-2 header lines) x seeded ordered subsets of 5 encodings; 18 Content-Type values x 9 registrations. The harness tokenises with the same `mediatype` crate and numbers names; real = ConjureRuntime::{response,request}_body_encoding with dummy encodings; oracle = permitted/optimal computed from the statement. Non-trivial = more than one range or an explicit q; distinct = distinct operation lines.";
+pub const RULE: &str = "15 fixed headers x 6 registration orders; absent Accept x 6 orders; every q-value 0..1000 in rotating spellings against its two neighbours and itself (3003 headers: pins the quality parser to the thousandth and the tie-break by position); seeded headers from a grammar (1-6 ranges from 15 range shapes incl. type/*, */*, */sub, suffixes, mixed case; 0-3 extra parameters; well-formed, boundary and 13 malformed q spellings; unparsable entries; 1-2 header lines) x seeded ordered subsets of 5 encodings; 22 Content-Type values (incl. registered types carrying a structured-syntax suffix) x 9 registrations. The harness tokenises with the same `mediatype` crate and numbers names; real = ConjureRuntime::{response,request}_body_encoding with dummy encodings; oracle = permitted/optimal computed from the statement. Non-trivial = more than one range or an explicit q; distinct = distinct operation lines.";
